@@ -30,7 +30,7 @@ func (w *world) handle(h int, fixed bool, body []Op) *templ.OnceHandle {
 	}
 	var x *templ.OnceHandle
 	if fixed {
-		x = templ.NewOnceHandle(templ.WithComponent(w.comp(body)))
+		x = templ.NewOnceHandle(templ.WithComponent(w.tmpl(body, false, nil)))
 	} else {
 		x = templ.NewOnceHandle()
 	}
@@ -38,22 +38,52 @@ func (w *world) handle(h int, fixed bool, body []Op) *templ.OnceHandle {
 	return x
 }
 
+// comp is the closure generated for the block of a call (generator.go writeBlockTemplElementExpression).
 func (w *world) comp(body []Op) templ.Component {
 	return templ.ComponentFunc(func(ctx context.Context, wr io.Writer) error {
-		// what the generator puts at the top of every template and block closure
+		// what the generator puts at the top of every block closure
 		ctx = templ.InitializeContext(ctx)
-		w.depth++
-		defer func() { w.depth-- }()
-		if w.depth > 64 {
-			return errTooDeep
+		_, err := w.seq(ctx, wr, body)
+		return err
+	})
+}
+
+func (w *world) seq(ctx context.Context, wr io.Writer, body []Op) (context.Context, error) {
+	w.depth++
+	defer func() { w.depth-- }()
+	if w.depth > 64 {
+		return ctx, errTooDeep
+	}
+	for _, o := range body {
+		var err error
+		if ctx, err = w.exec(ctx, wr, o); err != nil {
+			return ctx, err
 		}
-		for _, o := range body {
-			var err error
-			if ctx, err = w.exec(ctx, wr, o); err != nil {
+	}
+	return ctx, nil
+}
+
+// tmpl is a template as generated code has it (generator.go writeTemplate): the prologue takes the children out of the
+// context; { children... } between pre and post renders what the prologue found (writeChildrenExpression).
+func (w *world) tmpl(pre []Op, slot bool, post []Op) templ.Component {
+	return templ.ComponentFunc(func(ctx context.Context, wr io.Writer) error {
+		ctx = templ.InitializeContext(ctx)
+		children := templ.GetChildren(ctx)
+		if children == nil {
+			children = templ.NopComponent
+		}
+		ctx = templ.ClearChildren(ctx)
+		ctx, err := w.seq(ctx, wr, pre)
+		if err != nil {
+			return err
+		}
+		if slot {
+			if err = children.Render(ctx, wr); err != nil {
 				return err
 			}
 		}
-		return nil
+		_, err = w.seq(ctx, wr, post)
+		return err
 	})
 }
 
@@ -113,11 +143,20 @@ func (w *world) exec(ctx context.Context, wr io.Writer, o Op) (context.Context, 
 		return ctx, err
 	case "O":
 		h := w.handle(o.H, o.Fixed, o.Body)
-		if o.Fixed {
+		if o.Fixed || o.Self {
+			// generator.go writeSelfClosingTemplElementExpression: Render(ctx, buf), nothing after it
 			return ctx, h.Once().Render(ctx, wr)
 		}
 		// generator.go writeBlockTemplElementExpression: Render(templ.WithChildren(ctx, block), buf); ctx = templ.ClearChildren(ctx)
 		err := h.Once().Render(templ.WithChildren(ctx, w.comp(o.Body)), wr)
+		ctx = templ.ClearChildren(ctx)
+		return ctx, err
+	case "S":
+		callee := w.tmpl(o.Pre, o.Slot, o.Post)
+		if !o.Block {
+			return ctx, callee.Render(ctx, wr)
+		}
+		err := callee.Render(templ.WithChildren(ctx, w.comp(o.Body)), wr)
 		ctx = templ.ClearChildren(ctx)
 		return ctx, err
 	}
